@@ -38,3 +38,55 @@ Definition example_round : list label :=
 
 Definition is_some {A} (o : option A) : bool := match o with Some _ => true | None => false end.
 Definition final_ok (o : option state) (f : state -> bool) : bool := match o with Some s => f s | None => false end.
+
+(* ---- traces recorded from the REAL pool (harness/c06_pool.c under the scheduler shim, printed by
+   bin/pool --coq-trace); used as non-vacuity examples in Props/Properties_C06.v ---- *)
+(* script "n2 N1 w f", default schedule: task 1 is handed over by the client, its body (on a worker) hands
+   task 0 over through the queue path; wait; free *)
+Definition example_nested : list label :=
+  [
+    LEv 0 (ENew 2); LCreate 0 1; LCreate 0 2; LLock 0 WC; LUnlock 0 WC; LCont 0; LEv 0 ENewRet; LEv 0 (EAssign 1);
+    LLock 0 QC; LSignal 0 QC None; LUnlock 0 QC; LCont 0; LEv 0 EAssignRet; LEv 0 EWait; LLock 0 WC; LCWait 0 WC;
+    LBegin 1; LTau 1; LLock 1 WC; LLock 1 QC; LUnlock 1 QC; LCont 1; LUnlock 1 WC; LCont 1; LEv 1 (EStart 1);
+    LYield 1; LEv 1 (EAssign 0); LLock 1 QC; LSignal 1 QC None; LUnlock 1 QC; LCont 1; LEv 1 EAssignRet;
+    LEv 1 (EEnd 1); LTau 1; LLock 1 WC; LLock 1 QC; LUnlock 1 QC; LCont 1; LUnlock 1 WC; LCont 1; LEv 1 (EStart 0);
+    LYield 1; LEv 1 (EEnd 0); LTau 1; LLock 1 WC; LLock 1 QC; LSignal 1 WC (Some 0); LUnlock 1 WC; LCont 1;
+    LCWait 1 QC; LBegin 2; LTau 2; LLock 2 WC; LLock 2 QC; LSignal 2 WC None; LUnlock 2 WC; LCont 2; LCWait 2 QC;
+    LCWake 0 WC false; LUnlock 0 WC; LCont 0; LEv 0 EWaitRet; LEv 0 EFree; LLock 0 QC; LBcast 0 QC 2; LUnlock 0 QC;
+    LCont 0; LCWake 1 QC false; LUnlock 1 QC; LCont 1; LTau 1; LLock 1 WC; LLock 1 QC; LSignal 1 WC None;
+    LUnlock 1 WC; LCont 1; LCWait 1 QC; LCWake 2 QC false; LUnlock 2 QC; LCont 2; LTau 2; LExit 2; LJoin 0 2;
+    LLock 0 QC; LBcast 0 QC 1; LUnlock 0 QC; LCont 0; LCWake 1 QC false; LUnlock 1 QC; LCont 1; LTau 1; LExit 1;
+    LJoin 0 1; LEv 0 EFreeRet ].
+
+(* script "n1 D2 w": pool of one worker, not strict: task 0 runs inline in the client, its body hands over
+   task 1 which runs inline (nested) and hands over task 2 (nesting depth 3 on the client's stack); wait *)
+Definition example_inline : list label :=
+  [
+    LEv 0 (ENew 1); LCreate 0 1; LLock 0 WC; LUnlock 0 WC; LCont 0; LEv 0 ENewRet; LEv 0 (EAssign 0);
+    LEv 0 (EStart 0); LYield 0; LEv 0 (EAssign 1); LEv 0 (EStart 1); LYield 0; LEv 0 (EAssign 2); LEv 0 (EStart 2);
+    LYield 0; LEv 0 (EEnd 2); LEv 0 EAssignRet; LEv 0 (EEnd 1); LEv 0 EAssignRet; LEv 0 (EEnd 0); LEv 0 EAssignRet;
+    LEv 0 EWait; LLock 0 WC; LUnlock 0 WC; LCont 0; LEv 0 EWaitRet ].
+
+(* script "n1 s D1 S w": task 0 is queued while strict_async is set, strict_async is cleared, the worker runs
+   task 0 whose body hands over task 1: pool->n = 1 and not strict, so it runs inline ON THE WORKER *)
+Definition example_worker_inline : list label :=
+  [
+    LEv 0 (ENew 1); LCreate 0 1; LLock 0 WC; LUnlock 0 WC; LCont 0; LEv 0 ENewRet; LEv 0 (EStrict true);
+    LEv 0 (EAssign 0); LLock 0 QC; LSignal 0 QC None; LUnlock 0 QC; LCont 0; LEv 0 EAssignRet; LEv 0 (EStrict false);
+    LEv 0 EWait; LLock 0 WC; LCWait 0 WC; LBegin 1; LTau 1; LLock 1 WC; LLock 1 QC; LUnlock 1 QC; LCont 1;
+    LUnlock 1 WC; LCont 1; LEv 1 (EStart 0); LYield 1; LEv 1 (EAssign 1); LEv 1 (EStart 1); LYield 1; LEv 1 (EEnd 1);
+    LEv 1 EAssignRet; LEv 1 (EEnd 0); LTau 1; LLock 1 WC; LLock 1 QC; LSignal 1 WC (Some 0); LUnlock 1 WC; LCont 1;
+    LCWait 1 QC; LCWake 0 WC false; LUnlock 0 WC; LCont 0; LEv 0 EWaitRet ].
+
+(* script "n2 a1 l1 w f" on the REPAIRED pool (fixes/C06_limit_while_busy.patch): the limit is lowered while
+   worker 2 is about to run task 0; it leaves through the bottom exit, gives its busy slot back under
+   work_completed_mutex; the following wait returns; free *)
+Definition example_repaired : list label :=
+  [
+    LEv 0 (ENew 2); LCreate 0 1; LCreate 0 2; LLock 0 WC; LUnlock 0 WC; LCont 0; LEv 0 ENewRet; LEv 0 (EAssign 0);
+    LLock 0 QC; LBegin 2; LTau 2; LLock 2 WC; LSignal 0 QC None; LUnlock 0 QC; LCont 0; LEv 0 EAssignRet;
+    LEv 0 (ESetLimit 1); LLock 0 QC; LBcast 0 QC 0; LUnlock 0 QC; LCont 0; LLock 2 QC; LUnlock 2 QC; LCont 2;
+    LUnlock 2 WC; LCont 2; LEv 2 (EStart 0); LYield 2; LEv 2 (EEnd 0); LTau 2; LLock 2 WC; LSignal 2 WC None;
+    LUnlock 2 WC; LCont 2; LExit 2; LJoin 0 2; LEv 0 ESetLimitRet; LEv 0 EWait; LLock 0 WC; LUnlock 0 WC; LCont 0;
+    LEv 0 EWaitRet; LEv 0 EFree; LLock 0 QC; LBcast 0 QC 0; LUnlock 0 QC; LCont 0; LBegin 1; LTau 1; LLock 1 WC;
+    LSignal 1 WC None; LUnlock 1 WC; LCont 1; LExit 1; LJoin 0 1; LEv 0 EFreeRet ].
